@@ -257,20 +257,20 @@ func (e *engine) confirm(obj *goja.Object, problem string, exportOK bool) (strin
   var n = x.length, h = -1, out = [];
   for (var i = 0; i < n && i < 70000; i++) if (!HOP(x,i)) { h = i; break }
   var ks = Object.keys(x).filter(isIdx).map(Number);
-  for (i = 1; i < ks.length; i++) if (!(ks[i-1] < ks[i])) out.push('Object.keys not ascending/unique at ' + ks[i]);
-  if (ks.length && !(n > ks[ks.length-1])) out.push('length ' + n + ' <= max own index ' + ks[ks.length-1]);
+  for (i = 1; i < ks.length; i++) if (!(ks[i-1] < ks[i])) PUSH(out,'Object.keys not ascending/unique at ' + ks[i]);
+  if (ks.length && !(n > ks[ks.length-1])) PUSH(out,'length ' + n + ' <= max own index ' + ks[ks.length-1]);
   if (h < 0) return 'h=-1|' + out.join('; ');
   var old = GOPD(AP,h);
   Object.defineProperty(AP,h,{value:'PROBE',writable:true,enumerable:true,configurable:true});
   try {
     var exp = -1, expLast = -1;
     for (i = 0; i < n; i++) if ((i in x) && x[i] === 'PROBE') { if (exp < 0) exp = i; expLast = i }
-    var r1 = AP.indexOf.call(x,'PROBE'); if (r1 !== exp) out.push('indexOf("PROBE")=' + r1 + ', a read loop finds it at ' + exp);
-    var r2 = AP.includes.call(x,'PROBE'); if (r2 !== (exp >= 0)) out.push('includes("PROBE")=' + r2 + ' expected ' + (exp >= 0));
-    var r3 = AP.lastIndexOf.call(x,'PROBE'); if (r3 !== expLast) out.push('lastIndexOf("PROBE")=' + r3 + ' expected ' + expLast);
+    var r1 = AP.indexOf.call(x,'PROBE'); if (r1 !== exp) PUSH(out,'indexOf("PROBE")=' + r1 + ', a read loop finds it at ' + exp);
+    var r2 = AP.includes.call(x,'PROBE'); if (r2 !== (exp >= 0)) PUSH(out,'includes("PROBE")=' + r2 + ' expected ' + (exp >= 0));
+    var r3 = AP.lastIndexOf.call(x,'PROBE'); if (r3 !== expLast) PUSH(out,'lastIndexOf("PROBE")=' + r3 + ' expected ' + expLast);
     if (n <= 20000) {
-      var s = AP.slice.call(x); if (!HOP(s,h) || s[h] !== 'PROBE') out.push('slice()[' + h + '] is ' + (HOP(s,h) ? R(s[h],1) : 'a hole') + ', expected own "PROBE" (hole read through Array.prototype)');
-      var j = AP.join.call(x,'|').split('|'); if (j[h] !== 'PROBE') out.push('join: slot ' + h + ' is ' + R(j[h],1));
+      var s = AP.slice.call(x); if (!HOP(s,h) || s[h] !== 'PROBE') PUSH(out,'slice()[' + h + '] is ' + (HOP(s,h) ? R(s[h],1) : 'a hole') + ', expected own "PROBE" (hole read through Array.prototype)');
+      var j = AP.join.call(x,'|').split('|'); if (j[h] !== 'PROBE') PUSH(out,'join: slot ' + h + ' is ' + R(j[h],1));
     }
   } finally { if (old) Object.defineProperty(AP,h,old); else delete AP[h] }
   return 'h=' + h + '|' + out.join('; ');
